@@ -112,10 +112,21 @@ static std::vector<uint8_t> buildSong(int s)
 {
     std::vector<uint8_t> t;
     putVlq(t, 0); t.push_back(0xFF); t.push_back(0x51); t.push_back(3); t.push_back(0x07); t.push_back(0xA1); t.push_back(0x20);
+    // songs 6..11 name two MIDI ports (FF 09), in an order that depends on the song: the port -> channel-block map is
+    // per instance and per song
+    const char *ports[2] = { (s % 2) ? "Port B" : "Port A", (s % 2) ? "Port A" : "Port B" };
+    if(s >= 6) { putVlq(t, 0); t.push_back(0xFF); t.push_back(0x09); t.push_back(6); for(int k = 0; k < 6; ++k) t.push_back((uint8_t)ports[0][k]); }
     for(int c = 0; c < 3; ++c) { putVlq(t, 0); t.push_back((uint8_t)(0xC0 | c)); t.push_back((uint8_t)((s + c) % 3)); }
     int nn = 4 + (s % 6);
     for(int j = 0; j < nn; ++j)
-    { putVlq(t, j == 0 ? 0 : 6); t.push_back((uint8_t)(0x90 | (j % 3))); t.push_back((uint8_t)(40 + (j * 5 + s * 3) % 40)); t.push_back(100); }
+    {
+        if(s >= 6 && j == nn / 2)
+        {
+            putVlq(t, 0); t.push_back(0xFF); t.push_back(0x09); t.push_back(6); for(int k = 0; k < 6; ++k) t.push_back((uint8_t)ports[1][k]);
+            putVlq(t, 0); t.push_back(0xC0); t.push_back((uint8_t)((s + 1) % 3));      // another program on channel 0 of the second port
+        }
+        putVlq(t, j == 0 ? 0 : 6); t.push_back((uint8_t)(0x90 | (j % 3))); t.push_back((uint8_t)(40 + (j * 5 + s * 3) % 40)); t.push_back(100);
+    }
     for(int j = 0; j < nn; ++j)
     { putVlq(t, j == 0 ? 96 : 3); t.push_back((uint8_t)(0x80 | (j % 3))); t.push_back((uint8_t)(40 + (j * 5 + s * 3) % 40)); t.push_back(0); }
     putVlq(t, 48); t.push_back(0xFF); t.push_back(0x2F); t.push_back(0);
